@@ -1,5 +1,75 @@
-"""Concrete replays (#[test]s compiled into a scratch copy of /repo's working tree)."""
+"""Concrete replays of findings: #[test]s (replays/*.rs) appended to a source file of a scratch copy of /repo's CURRENT
+working tree, built and run with cargo test. A replay asserts what the property demands: it fails on a tree that has the
+defect and passes on a repaired one. Replays are evidence about findings, never counted as discharged obligations."""
+import os
+import re
+import shutil
+import subprocess
+import tempfile
+import time
+
+HERE = os.path.dirname(os.path.abspath(__file__))
+ROOT = os.path.dirname(HERE)
+REPO = os.environ.get("VP_REPO", "/repo")
+
+# replay sets: file to append, target source file, crate
+SETS = {
+    "canister": dict(src="replays/canister_replays.rs", append_to="canister/src/lib.rs", crate="ic-btc-canister", module="vp_replays"),
+}
 
 
 def run_replays(replays, pid):
-    return dict(results=[], cmds=[])
+    """replays: list of dicts {set, test, finding}"""
+    out = dict(results=[], cmds=[])
+    by_set = {}
+    for r in replays:
+        by_set.setdefault(r["set"], []).append(r)
+    for sname, rs in by_set.items():
+        cfg = SETS[sname]
+        scratch = tempfile.mkdtemp(prefix="vp_replay_")
+        try:
+            dst = os.path.join(scratch, "repo")
+            subprocess.run(["rsync", "-a", "--exclude", "target", "--exclude", ".git", REPO + "/", dst + "/"], check=True)
+            with open(os.path.join(ROOT, cfg["src"])) as f:
+                txt = f.read()
+            with open(os.path.join(dst, cfg["append_to"]), "a") as f:
+                f.write("\n\n// ---- appended by /verif (replays of findings) ----\n" + txt)
+            env = dict(os.environ, CARGO_NET_OFFLINE="true", CARGO_TARGET_DIR=os.path.join(scratch, "target"))
+            cmd = ["cargo", "test", "-p", cfg["crate"], "--lib", "--offline", "--no-fail-fast", cfg["module"] + "::"]
+            out["cmds"].append(" ".join(cmd) + "   (in a scratch copy of /repo with %s appended to %s)" % (cfg["src"], cfg["append_to"]))
+            t0 = time.time()
+            try:
+                p = subprocess.run(["timeout", "1500"] + cmd, cwd=dst, env=env, capture_output=True, text=True)
+                log = p.stdout + "\n" + p.stderr
+            except Exception as e:  # noqa
+                log = "runner error: %s" % e
+            os.makedirs(os.path.join(ROOT, "out"), exist_ok=True)
+            lp = os.path.join(ROOT, "out", "replay_%s_%s.log" % (sname, pid))
+            with open(lp, "w") as f:
+                f.write(log[-400000:])
+            for r in rs:
+                m = re.search(r"test %s::%s(?: - should panic)? \.\.\. (ok|FAILED)" % (re.escape(cfg["module"]), re.escape(r["test"])), log)
+                if not m:
+                    st, detail = "undecided", "test did not run (build error?): %s" % log[-600:]
+                elif m.group(1) == "ok":
+                    st, detail = "pass", ""
+                else:
+                    mm = re.search(r"---- %s::%s stdout ----(.*?)(?:\n---- |\nfailures:)" % (re.escape(cfg["module"]), re.escape(r["test"])), log, re.S)
+                    msg = ""
+                    if mm:
+                        pm = re.search(r"panicked at[^\n]*\n([^\n]*)", mm.group(1))
+                        msg = pm.group(0)[:600] if pm else mm.group(1)[-600:]
+                    st, detail = "fail", msg
+                rp = os.path.join(ROOT, "out", "replay", "replay.%s.%s.json" % (pid, r["test"]))
+                os.makedirs(os.path.dirname(rp), exist_ok=True)
+                import json
+                with open(rp, "w") as f:
+                    json.dump(dict(property=pid, obligation="replay." + r["test"], finding=r.get("finding"), status=st,
+                                   test="%s::%s in %s" % (cfg["module"], r["test"], cfg["src"]), output=detail,
+                                   failing_input_found=(st == "fail"),
+                                   how_to_replay="python3 vp/check.py %s --replay %s" % (pid, rp)), f, indent=1)
+                out["results"].append(dict(name=r["test"], finding=r.get("finding"), status=st, detail=detail, path=rp,
+                                           wall_s=round(time.time() - t0, 1)))
+        finally:
+            shutil.rmtree(scratch, ignore_errors=True)
+    return out
